@@ -54,6 +54,10 @@ pub fn view_violation(v: &DnaStringSlice, m: &[u8]) -> Option<String> {
     let canon = DnaString::from_bytes(m);
     need!(*v == canon.slice(0, m.len()) && canon.slice(0, m.len()) == *v, "== with an equal view of another string");
     need!(v.hamming_dist(&canon.slice(0, m.len())) == 0, "hamming_dist with an equal view");
+    // a view and its reverse complement (same parent, same interval) are equal only if the substring is its own rc
+    let r = v.rc();
+    need!((*v == r) == (m == rc(m).as_slice()) && (r == *v) == (m == rc(m).as_slice()), "== between a view and its own reverse complement");
+    need!(*v == v.clone() && r == r.clone(), "== with a clone of itself");
     if !m.is_empty() {
         for p in [0, m.len() - 1, m.len() / 2] {
             let mut m2 = m.to_vec();
